@@ -1,7 +1,7 @@
 """R6 GUARD (DESIGN.md §4 C17): ordered guard sequence, error variant and payload provenance of every
 fallible routine, extracted from the MIR and compared with the decision table of the property."""
 from .facts import callee_name, fmt, strip, walk
-from .rules_layout import short
+from .rules_layout import short, producer_chain
 
 RESULT = "std::result::Result"
 OPTION = "std::option::Option"
